@@ -31,6 +31,7 @@ def dispatch (j : Json) : R Json := do
   | "select_pairs" => handleSelectPairs j
   | "sample_plan" => handleSamplePlan j
   | "process_table" => handleProcessTable j
+  | "row_faults" => handleRowFaults j
   | "read_filter" => handleReadFilter j
   | "schema" => handleSchema j
   | "ping" => pure (Json.mkObj [("pong", Json.bool true)])
